@@ -1521,13 +1521,17 @@ aiff_write_tailer (SF_PRIVATE *psf)
 	psf->header.ptr [0] = 0 ;
 	psf->header.indx = 0 ;
 
-	psf->dataend = psf_fseek (psf, 0, SEEK_END) ;
+	/* The audio data ends where the frame count says, not where a previous pad byte or tailer ends. */
+	if (psf->bytewidth > 0 && psf->sf.seekable == SF_TRUE)
+	{	psf->datalength = psf->sf.frames * psf->bytewidth * psf->sf.channels ;
+		psf->dataend = psf_fseek (psf, psf->dataoffset + psf->datalength, SEEK_SET) ;
+		}
+	else
+		psf->dataend = psf_fseek (psf, 0, SEEK_END) ;
 
-	/* Make sure tailer data starts at even byte offset. Pad if necessary. */
+	/* Make sure tailer data starts at even byte offset. Pad if necessary (the pad is not audio data). */
 	if (psf->dataend % 2 == 1)
-	{	psf_fwrite (psf->header.ptr, 1, 1, psf) ;
-		psf->dataend ++ ;
-		} ;
+		psf_fwrite (psf->header.ptr, 1, 1, psf) ;
 
 	if (psf->peak_info != NULL && psf->peak_info->peak_loc == SF_PEAK_END)
 	{	psf_binheader_writef (psf, "Em4", BHWm (PEAK_MARKER), BHW4 (AIFF_PEAK_CHUNK_SIZE (psf->sf.channels))) ;
